@@ -16,7 +16,7 @@ CHECKS = {
    'Trusts cgv/refsem.py, cgv/automata.py, and that cgprobe calls the pipeline as src/main.rs does (C04 cross-checks probe vs binary bytes).',
    'runtime monitoring: reference-model monitor over cgprobe automaton dumps (exact language equivalence per execution)'),
  'C03': ('translation_validation',
-   'Per automaton produced by the real from_regex_raw (main and every within-word one): product search for a distinguishing sequence against minimize(), trimness, Moore-refinement singleton classes and size equality with an independent minimisation; exact per automaton, held on those a run produced.',
+   'Per automaton produced by the real from_regex_raw (main and every within-word one), and for every nested automaton as stored inside the compiled automaton (its language must be that of some within-word regex, its size minimal): product search for a distinguishing sequence against minimize(), trimness, Moore-refinement singleton classes and size equality with an independent minimisation; exact per automaton, held on those a run produced.',
    'Trusts cgv/automata.py; inputs compared by interned identity.',
    'runtime monitoring: invariant + equivalence oracle over dumped (input, output) pairs of minimize()'),
  'C05': ('exploration',
@@ -48,7 +48,7 @@ CHECKS = {
    '"refers to" counts references from any statement.',
    'runtime monitoring: multiset oracle + metamorphic monitor on warnings'),
  'C04': ('translation_validation',
-   'Per compiled (grammar, shell): the binary\'s script must equal byte for byte the script cgprobe gets from the same library calls next to the automaton dump; its tables are read back (bash: RETURN-trap dump of the locals as bash decoded them; fish/zsh/pwsh: independent readers) and compared entry by entry with that automaton, nested automata and shared shape functions included. KF-B consequences are known findings.',
+   'Per compiled (grammar, shell): the binary\'s script must equal byte for byte the script cgprobe gets from the same library calls next to the automaton dump; its tables are read back (bash: RETURN-trap dump of the locals as bash decoded them; fish/zsh/pwsh: independent readers) and compared entry by entry with that automaton, nested automata and shared shape functions included; every bash within-word function must declare each table the shared matcher reads. KF-B consequences are known findings.',
    'fish/zsh/pwsh are not installed: their table syntax is read by cgv/readers.py, their control code is not executed.',
    'runtime monitoring: table-by-table agreement monitor between emitted scripts and the dumped automaton'),
  'C07': ('exploration',
@@ -60,7 +60,7 @@ CHECKS = {
    '(a) under-approximates on paths through commands/placeholders inside words; branch indices for (b) from cgv/refsem.py.',
    'runtime monitoring: invariant on dumped automata + metamorphic monitor (|| vs |) on bash executions'),
  'C11': ('exploration',
-   'The complete space of 1152 cases (32 definition subsets x 3 names x 3 reference positions x 4 targets) plus plain non-command PATH/DIRECTORY definitions is compiled; the rule is observed on the automaton\'s command symbols, on the command function bodies of the emitted script and, for bash, by execution in a scratch directory.',
+   'The complete space of 3840 cases (32 definition subsets x 3 names x 10 reference positions - top level, word tail, behind one definition, behind two definitions under four name pairs, under ||, under ..., under a within-word || - x 4 targets) plus plain non-command PATH/DIRECTORY definitions is compiled; the rule is observed on the automaton\'s command symbols, on the command function bodies of the emitted script and, for bash, by execution in a scratch directory.',
    'Built-in case for fish/zsh/pwsh judged as "one body that is none of the markers".',
    'runtime monitoring: exhaustive rule oracle over probe dumps, emitted scripts and bash executions'),
  'C12': ('exploration',
